@@ -433,7 +433,7 @@ func runC17Race(w *World, p map[string]int) {
 				}
 				return false
 			}
-			if !nested && readSide(names[0]) && strings.HasPrefix(gs[0].parked, "db.read") && w.S.Tape.Bool(30) {
+			if !nested && readSide(names[0]) && strings.HasPrefix(gs[0].parked, "db.read") && w.S.Tape.Bool(10) {
 				nested = true
 				var second []apiCall
 				for _, c := range calls {
